@@ -39,6 +39,8 @@ def cases(tier, seed):
   for i in range(n):
     prof = ("full", "free", "joints")[i % 3]
     out.append({"id": f"gen{seed}_{i}", "scene": {"kind": "gen", "seed": seed * 100000 + i, "profile": prof, "override": {"nuserdata": 3, "delays": 0.3}}, "seed": seed * 100000 + i, "entry": ("step", "forward", "step")[i % 3], "weight": 1})
+  for i in range(1 if tier == "quick" else 10):
+    out.append({"id": f"big{seed}_{i}", "scene": {"kind": "gen", "seed": seed * 100000 + 8000 + i, "profile": "bigtree"}, "seed": seed * 100000 + 8000 + i, "entry": "step", "weight": 4})
   return out
 
 
